@@ -416,7 +416,13 @@ func body(r *explore.Run, rep *report.R, sc string, variant string, depth int) {
 		_ = afero.WriteFile(fs, p, b, 0o644)
 	}
 	w := &world{s: s, reg: reg, fs: fs, r: r, variant: variant, bNames: bNames}
-	w.inj = (&xrh.FaultInjector{Run: r, Reads: report.Thorough(), NoCrash: true, Filter: func(c simkube.Call) bool { return c.Client == "rev" }}).WithErrClasses(s)
+	w.inj = &xrh.FaultInjector{Run: r, Reads: report.Thorough(), NoCrash: true, Filter: func(c simkube.Call) bool { return c.Client == "rev" }}
+	if !report.Thorough() {
+		// The quick tier varies the class of an injected API error; the
+		// thorough tier spends its budget on reads as fault points and on two
+		// more events per sequence instead.
+		w.inj.WithErrClasses(s)
+	}
 	s.Inj = simkube.InjectorFn(w.interpose)
 	mgr := pkgh.NewProviderManager(s.Client("mgr"), reg)
 	rr := w.newRevReconciler()
@@ -436,7 +442,11 @@ func body(r *explore.Run, rep *report.R, sc string, variant string, depth int) {
 		events = append(events, "tls-secret-comes-and-goes")
 	}
 	var trail []string
-	established := map[string]bool{w.revName("A"): true} // revisions that completed an active reconcile
+	// Revisions that completed an active reconcile, by UID: a revision that
+	// is deleted and created again under the same name is another revision,
+	// which has never established anything.
+	_, _, uidA := w.revisionState(w.revName("A"))
+	established := map[string]bool{string(uidA): true}
 	for step := 0; step < depth; step++ {
 		var files []string
 		_ = afero.Walk(w.fs, "/", func(p string, _ fsInfo, _ error) error { files = append(files, p); return nil })
@@ -559,7 +569,7 @@ func body(r *explore.Run, rep *report.R, sc string, variant string, depth int) {
 				want = w.bNames
 			}
 			if active && completed {
-				established[name] = true
+				established[string(uid)] = true
 				for _, n := range want {
 					c := post[n]
 					if c == nil && thirdDeleted[n] {
@@ -582,7 +592,7 @@ func body(r *explore.Run, rep *report.R, sc string, variant string, depth int) {
 					}
 				}
 			}
-			if !active && completed && established[name] {
+			if !active && completed && established[string(uid)] {
 				// E3: deactivation gives up control but keeps ownership.
 				for _, n := range want {
 					c := post[n]
